@@ -285,10 +285,16 @@ def check(prop, tier):
     # ---- runs that hit the per-run time limit: executed again, alone, with a far longer limit; only a plan that still does not
     # finish is a hang (wall-clock time is the one thing a seed does not determine, so it must never decide a verdict by itself)
     slow = 0
-    for i, r in list(records.items()):
+    rechecked = 0
+    for i, r in sorted(records.items()):
         if r["verdict"] in ("viol", "foreign") and r.get("oracle", "").endswith(".crash") and r.get("detail", "").startswith("hang"):
+            if rechecked >= 3 and slow == 0:
+                break           # three out of three did not finish alone either: these are hangs, not slow runs
+            if rechecked >= 8:
+                break
+            rechecked += 1
             sw, ops = get_plan(lane_of[i], seed, tier, r["lane_idx"])
-            again = exec_plan(sw, ops, timeout=1500, alarm=1200)
+            again = exec_plan(sw, ops, timeout=700, alarm=600)
             if not (again.get("oracle", "").endswith(".crash") and again.get("detail", "").startswith("hang")):
                 slow += 1
                 again["idx"] = i
@@ -297,6 +303,11 @@ def check(prop, tier):
                 again.setdefault("shape", r.get("shape"))
                 again.setdefault("nops", r.get("nops", 0))
                 records[i] = again
+    if rechecked and slow == rechecked:
+        # every run that was looked at again finished: the machine is slow, not the library; the ones not looked at are not believed either
+        for i, r in records.items():
+            if r["verdict"] in ("viol", "foreign") and r.get("oracle", "").endswith(".crash") and r.get("detail", "").startswith("hang"):
+                r["verdict"] = "slow"
     known = load_known()
     cnt, shapes, states, triples, finals, verdicts = aggregate(prop, lane, records)
 
